@@ -319,7 +319,7 @@ fn derivative_names(rep: &mut Report) {
 
 pub fn run(tier: Tier) -> i32 {
     let mut rep = Report::new("C04", tier);
-    rep.rule = "all occurrence sequences up to the length bound over a 15-name universe (case, underscore, digits, Greek, braced names with blanks/digits/emoji/operator look-alikes, {a}=a, empty name) under three operator patterns; all slice lengths 0..n+2 for eval / eval_relaxed / eval_vec / eval_iter on flat, uncompiled, deep and deep-derived flat forms; families with 17-20 distinct variables; derived expressions (operator application, substitution, derivative) over a pool; oracle: BTreeSet order of names and binding by name on the reference tree; distinct = distinct texts, non-trivial = more than one variable".into();
+    rep.rule = "all occurrence sequences up to the length bound over a 15-name universe (case, underscore, digits, Greek, braced names with blanks/digits/emoji/operator look-alikes, {a}=a, empty name) under three operator patterns; all slice lengths 0..n+2 for eval / eval_relaxed / eval_vec / eval_iter on flat, uncompiled, deep and deep-derived flat forms; families with 15..20, 63..66 and 255..258 distinct variables; derived expressions (operator application, substitution, derivative) over a pool; oracle: BTreeSet order of names and binding by name on the reference tree; distinct = distinct texts, non-trivial = more than one variable".into();
     rep.assumptions = vec!["Rust string order = byte-wise comparison of the names (String::cmp)".into()];
     let t = table();
     let max_len = if tier.thorough() { 6 } else { 5 };
@@ -365,8 +365,10 @@ pub fn run(tier: Tier) -> i32 {
     // more than 16 distinct variables (beyond the inline SmallVec capacity)
     {
         let mut texts = Vec::new();
-        for m in 15..=20usize {
-            let names: Vec<String> = (0..m).map(|i| format!("n{:02}", (i * 7) % m)).collect();
+        // (also around one machine word and one byte of variable indices)
+        for m in (15..=20usize).chain([63, 64, 65, 66, 255, 256, 257, 258]) {
+            let mul = [7usize, 11, 13].into_iter().find(|k| m % k != 0).unwrap_or(1);
+            let names: Vec<String> = (0..m).map(|i| if m < 100 { format!("n{:02}", (i * mul) % m) } else { format!("n{:03}", (i * mul) % m) }).collect();
             let orders: Vec<Vec<usize>> = vec![
                 (0..m).collect(),
                 (0..m).rev().collect(),
@@ -400,7 +402,7 @@ pub fn run(tier: Tier) -> i32 {
         for a in accs {
             rep.absorb(a);
         }
-        rep.bounds.push(format!("{} texts with 15..20 distinct variables (identity, reversal, rotation, interleavings, repetitions; bare and braced): complete", texts.len()));
+        rep.bounds.push(format!("{} texts with 15..20, 63..66 and 255..258 distinct variables (identity, reversal, rotation, interleavings, repetitions; bare and braced): complete", texts.len()));
     }
     // derived expressions
     {
